@@ -21,7 +21,8 @@ from .model import AnalysisError
 
 MAX_LEN = 9
 MAX_SET = 160
-REP = (0, 1, 2)
+EXTRA_REP = 2        # an unbounded repetition x[lo, ...] is taken lo..lo+2
+BOUNDS = {'quick': (9, 160, 2), 'thorough': (12, 480, 3)}
 
 
 # shape elements -------------------------------------------------------------
@@ -207,7 +208,7 @@ class Shapes:
             else:
                 lo = hi = const(sl)
             counts = [c for c in range(lo, (hi if hi is not None
-                                            else lo + 2) + 1)]
+                                            else lo + EXTRA_REP) + 1)]
             out = set()
             for c in counts:
                 cur = frozenset({()})
@@ -523,8 +524,10 @@ class Toks(AbsObj):
 _CACHE = {}
 
 
-def analyse(repo):
-    key = repo.digest()
+def analyse(repo, tier='quick'):
+    global MAX_LEN, MAX_SET, EXTRA_REP
+    MAX_LEN, MAX_SET, EXTRA_REP = BOUNDS.get(tier, BOUNDS['quick'])
+    key = (repo.digest(), tier)
     if key in _CACHE:
         return _CACHE[key]
     sim = GenSim(repo)
@@ -604,7 +607,7 @@ def _install_node_construction(sim):
 
 
 def check_parse_actions(ctx, pid):
-    res = analyse(ctx.repo)
+    res = analyse(ctx.repo, ctx.tier)
     rule = f'{pid}.parse-action-shape'
     ctx.rule(rule, 'every parse action succeeds (or raises SyntaxError / '
              'IndexError, which become diagnostics) on every token-list '
@@ -627,6 +630,8 @@ def check_parse_actions(ctx, pid):
         'rules': res['rules'], 'n_unmodelled': res['n_unmodelled'],
         'unmodelled': [list(u) for u in res['unmodelled'][:30]],
         'dropped_shapes': res['dropped_shapes'],
+        'bounds': {'max_shape_len': MAX_LEN, 'max_shapes_per_rule': MAX_SET,
+                   'unbounded_repetition_unrolled': EXTRA_REP},
         'samples': res['samples']}
     if res['dropped_shapes']:
         ctx.observe(f'grammar shape analysis: {res["dropped_shapes"]} shape '
